@@ -143,6 +143,7 @@ func (tk *tracker) block(b *ast.BlockStmt) {
 func (tk *tracker) list(in []ast.Stmt) []ast.Stmt {
 	var out []ast.Stmt
 	for _, s := range in {
+		s = tk.normalize(s)
 		ps := tk.stmt(s, true)
 		for _, p := range ps {
 			out = append(out, tk.emit(p))
@@ -150,6 +151,47 @@ func (tk *tracker) list(in []ast.Stmt) []ast.Stmt {
 		out = append(out, s)
 	}
 	return out
+}
+
+// normalize rewrites, without changing behaviour, statement forms whose conditions offer no place for a
+// probe, and only where the condition reads a tracked field:
+//
+//	if init; cond {A} else ...      =>  { init; if cond {A} else ... }      (same scopes: the block stands for the if's implicit one)
+//	... else if [init;] cond {B}    =>  ... else { [init;] if cond {B} }
+//	for [init]; cond; [post] {A}    =>  for [init]; ; [post] { if !(cond) { break }; A }   (cond is evaluated at the same points)
+func (tk *tracker) normalize(s ast.Stmt) ast.Stmt {
+	switch x := s.(type) {
+	case *ast.IfStmt:
+		for e := x; e != nil; {
+			next, _ := e.Else.(*ast.IfStmt)
+			if next != nil && tk.tracked(next.Cond) {
+				e.Else = &ast.BlockStmt{Lbrace: next.Pos(), List: []ast.Stmt{next}, Rbrace: next.End()}
+				tk.r.stats["track:else-if-unfolded"]++
+				break // the inner if is normalized when the new block is processed
+			}
+			e = next
+		}
+		if x.Init != nil && tk.tracked(x.Cond) {
+			init := x.Init
+			x.Init = nil
+			tk.r.stats["track:if-init-unfolded"]++
+			return &ast.BlockStmt{Lbrace: x.Pos(), List: []ast.Stmt{init, x}, Rbrace: x.End()}
+		}
+	case *ast.ForStmt:
+		if x.Cond != nil && tk.tracked(x.Cond) {
+			guard := &ast.IfStmt{If: x.Cond.Pos(), Cond: &ast.UnaryExpr{Op: token.NOT, X: &ast.ParenExpr{X: x.Cond}},
+				Body: &ast.BlockStmt{List: []ast.Stmt{&ast.BranchStmt{Tok: token.BREAK}}}}
+			x.Cond = nil
+			x.Body.List = append([]ast.Stmt{guard}, x.Body.List...)
+			tk.r.stats["track:for-cond-unfolded"]++
+		}
+	}
+	return s
+}
+
+// tracked: does evaluating e read a tracked field at a place a probe could describe?
+func (tk *tracker) tracked(e ast.Expr) bool {
+	return e != nil && len(tk.reads(e)) > 0
 }
 
 func (tk *tracker) emit(p probe) ast.Stmt {
